@@ -41,7 +41,12 @@ theorem zipWith_restore_tile (bySlicing : Bool) (M : Nat) (objs : List (Obj G V)
 between tiling and restore — returning or failing at any point, i.e. every fault schedule —
 getBH_level2 as it is in /repo now leaves every object's position and orientation path exactly
 as it was.  `Gen.Exits.resetInFinally` is read from the source on every run: if the restore is
-no longer in a `finally` that encloses the failing phase, this proof no longer checks. -/
+no longer in a `finally` that encloses the failing phase, this proof no longer checks.
+(Audit note: with `restoreBySlicing = false` the model's `restore` returns the saved object by definition, so the content
+of this theorem is exactly the three flags `translate/gen.py:gen_Exits` extracts from the AST — restore inside a
+`finally` that follows the tiling directly, no raising statement in between, restore from saved arrays — plus the
+reading of them in `Level2State.run`; the hypothesis `h` is only needed for the slicing variant.  `Level2State` is not
+executed by the driver; nothing here speaks about attributes other than the two paths.) -/
 theorem level2_preserves_state {ε β : Type} (compute : List (Obj G V) → Except ε β)
     (objs : List (Obj G V)) (h : ∀ o ∈ objs, o.pos.length = o.ori.length) :
     (runNow compute objs).1 = objs := by
